@@ -19,6 +19,37 @@ if b in text:
 else:
     text = text.rstrip() + '\n\n' + block + '\n'
 open(f'{V}/DESIGN.md', 'w').write(text)
+# ---- section 10: seeded changes
+sb, se = '<!-- BEGIN SEEDS (generated from seeded/*/meta.json) -->', '<!-- END SEEDS -->'
+rows = ['| seed | property | what it needs to manifest | caught by |', '|---|---|---|---|']
+sd = f'{V}/seeded'
+for name in sorted(os.listdir(sd)):
+    mp = os.path.join(sd, name, 'meta.json')
+    if os.path.exists(mp):
+        m = json.load(open(mp))
+        rows.append('| `seeded/%s` | %s | %s | %s |' % (name, m['property'], m['needs_to_manifest'].replace('|', '/'),
+                                                    m['caught_by'].replace('|', '/')))
+text = open(f'{V}/DESIGN.md').read()
+block = sb + '\n' + '\n'.join(rows) + '\n' + se
+if sb in text:
+    text = text[:text.index(sb)] + block + text[text.index(se) + len(se):]
+    open(f'{V}/DESIGN.md', 'w').write(text)
+# ---- section 7: axioms actually reported by Print Assumptions (from the evidence files)
+ab, ae = '<!-- BEGIN AXIOMS (generated from evidence/*.json) -->', '<!-- END AXIOMS -->'
+rows = ['| property | theorems (obligations discharged) | assumptions printed by `Print Assumptions` |', '|---|---|---|']
+for n in range(1, 21):
+    pid = f'C{n:02d}'
+    ep = f'{V}/evidence/{pid}.json'
+    if os.path.exists(ep):
+        cov = json.load(open(ep))['coverage']
+        ax = [t[len('stdlib axiom: '):] for t in cov.get('trusted_base', []) if t.startswith('stdlib axiom: ')]
+        rows.append('| %s | %d/%d | %s |' % (pid, cov.get('discharged', 0), cov.get('obligations', 0),
+                                             ', '.join('`%s`' % a for a in ax) or 'none (closed under the global context)'))
+text = open(f'{V}/DESIGN.md').read()
+block = ab + '\n' + '\n'.join(rows) + '\n' + ae
+if ab in text:
+    text = text[:text.index(ab)] + block + text[text.index(ae) + len(ae):]
+    open(f'{V}/DESIGN.md', 'w').write(text)
 allf = []
 d = f'{V}/known_findings.d'
 for name in sorted(os.listdir(d)):
